@@ -13,6 +13,13 @@ Every operator theorem below is either of this line-local kind, quantified over 
 numbers and over an arbitrary rest of the line, or (for the two structural operators and the missing final line
 end) a statement about whole documents.
 
+General form, for ALL documents and ALL sites at once (`accepted_only_wellformed` and its corollaries): whatever the
+parser accepts declares only supported integer widths, names in their lexical class with at least two characters,
+known condition operators, known attributes and transforms with the right number of arguments. A corruption of one
+of these kinds can therefore never be "silently accepted" as what it says: if the corrupted document were accepted,
+the offending item could not be in the result. (That it is rejected rather than re-read as something else is what
+the line-local theorems add, site by site.)
+
 Per operator of the catalogue:
 * bad-width ............ `alias_type_rejected`, `bad_width_alias_rejected` (alias lines), `bad_width_member_rejected`
                          (type of a member); enum base, array elements, `sizeof`, `make_*` arguments: no theorem
@@ -45,6 +52,7 @@ line shapes used here is also by correspondence only; `Corrupt` is not reasoned 
 import SymbolVerif.Proofs.CatsParserLemmas
 import SymbolVerif.Proofs.CatsScanLemmas
 import SymbolVerif.Proofs.CatsRejectLines
+import SymbolVerif.Proofs.CatsOutput
 import SymbolVerif.Model.Cats.Corrupt
 namespace SymbolVerif.C11
 open SymbolVerif.Cats SymbolVerif.Cats.Lexer SymbolVerif.Cats.Parser
@@ -364,6 +372,52 @@ theorem dedented_member_text (pre post : Schema) (d : Option String) (name : Str
 theorem member_outside_declaration_rejected (mode : TopMode) (m : Member) (h : WFMember m) :
     parseTopLine mode m.render.toList = none :=
   parseTopLine_member_none mode m h
+
+/-! ### nothing ill-formed is ever in a result -/
+
+/-- For EVERY document: each declaration the parser returns is well-formed (`OutDecl`): declared names are
+    `USER_TYPE_NAME`s, member names `PROPERTY_NAME`s / `CONST_PROPERTY_NAME`s (at least two characters), every integer
+    type is one of the eight supported ones, condition operators are the four known ones, attributes are the known
+    ones with the value lists of the grammar (arity), the comparer transform is the known one. -/
+theorem accepted_only_wellformed (doc : Chars) (ds : Schema) (h : parse doc = .ok ds) : ∀ d ∈ ds, OutDecl d :=
+  parse_out doc ds h
+
+/-- no accepted document declares an alias or an enum over an unsupported integer width -/
+theorem accepted_widths_supported (doc : Chars) (ds : Schema) (h : parse doc = .ok ds) :
+    (∀ a t, Decl.alias a ∈ ds → a.linkedType = .int t → (t.size = 1 ∨ t.size = 2 ∨ t.size = 4 ∨ t.size = 8)) ∧
+    (∀ e, Decl.enum e ∈ ds → (e.base.size = 1 ∨ e.base.size = 2 ∨ e.base.size = 4 ∨ e.base.size = 8)) := by
+  constructor
+  · intro a t ha ht
+    cases parse_out doc ds h _ ha with
+    | alias _ hw =>
+      obtain ⟨_, hlt⟩ := hw
+      rw [ht] at hlt
+      exact hlt.1
+  · intro e he
+    cases parse_out doc ds h _ he with
+    | «enum» name base values attrs c hn hb hv hattrs => exact hb.1
+
+/-- no accepted document declares a type whose name is not an upper-case letter, a lower-case letter and then
+    letters or digits (so: no one-character name, no wrong case class) -/
+theorem accepted_declared_names (doc : Chars) (ds : Schema) (h : parse doc = .ok ds) : ∀ d ∈ ds, IsTypeName d.name := by
+  intro d hd
+  cases parse_out doc ds h d hd with
+  | alias a hw => exact hw.1
+  | «enum» name base values attrs c hn hb hv hattrs => exact hn
+  | struct dsp name fields attrs c hdsp hn hf hattrs => exact hn
+
+/-- no accepted document carries an unknown struct / enum attribute or one with the wrong number of arguments, and
+    every member of every struct is one of the member forms of the grammar -/
+theorem accepted_attributes_and_members (doc : Chars) (ds : Schema) (h : parse doc = .ok ds) :
+    (∀ s, Decl.struct s ∈ ds → WFAttrs WFStructAttr s.attributes ∧ ∀ m ∈ s.fields, OutMember m) ∧
+    (∀ e, Decl.enum e ∈ ds → WFAttrs WFEnumAttr e.attributes ∧ ∀ v ∈ e.values, OutEnumValue v) := by
+  constructor
+  · intro s hs
+    cases parse_out doc ds h _ hs with
+    | struct dsp name fields attrs c hdsp hn hf hattrs => exact ⟨hattrs, hf⟩
+  · intro e he
+    cases parse_out doc ds h _ he with
+    | «enum» name base values attrs c hn hb hv hattrs => exact ⟨hattrs, hv⟩
 
 /-! ### non-vacuity -/
 
